@@ -8,12 +8,13 @@
 (* Input: {"cmds": [...], "cases": [{"lines": [...], "cmds": [...], "dispatched": [...]}, ...]}  *)
 EXTENDS Layout
 
-VARIABLE k
+VARIABLES k, dispatched
 Cases == Input.cases
-CaseInit == k \in 1..Len(Cases) /\ lines = Cases[k].lines /\ n = 0
-CaseNext == UNCHANGED <<vars, k>>
-CaseSpec == CaseInit /\ [][CaseNext]_<<vars, k>>
-CaseLayoutOK == Join(lines) = Cases[k].cmds
-CaseDispatchOK == Cases[k].dispatched = Join(lines)
+CaseInit == k \in 1..Len(Cases) /\ Cmds = Cases[k].cmds /\ dispatched = Cases[k].dispatched
+            /\ lines = Cases[k].lines /\ n = 0 /\ fin = FALSE
+CaseNext == UNCHANGED <<vars, k, dispatched>>
+CaseSpec == CaseInit /\ [][CaseNext]_<<vars, k, dispatched>>
+CaseLayoutOK == Join(lines) = Cmds
+CaseDispatchOK == dispatched = Join(lines)
 Verdict == PrintT(<<"CASE", k, CaseLayoutOK, CaseDispatchOK>>)
 =============================================================================
